@@ -35,6 +35,9 @@ TEXT = {
  "C10": dict(technique="quiescence monitor in virtual time over a grid of transaction-boundary schedules; Go race detector",
    text="Exploration of schedules: the writer's commit (and its commit->notify gap) is placed in every gap between the waiter's register / check / wait steps by virtual delays at transaction boundaries; after the writer returned, the waiter must have returned a message at quiescence within its own scheduled delays, i.e. without any timer. 7 writer kinds x waiter kinds (Pull, StreamingPull) x fresh/warm notifier state; built with -race.",
    note="Trusted base: testing/synctest quiescence semantics; the seam's boundary delays. Only in-process notification (SQLite) is executed; PostgreSQL LISTEN/NOTIFY is not. One defect found this way was repaired (fix: WakePublishListeners)."),
+ "C11": dict(technique="client-side outstanding ledger evaluated at every Send (hook in the fake stream) + quiescence no-stall monitor; random virtual delays at the stream's transaction boundaries; Go race detector",
+   text="Exploration: seeded stream scripts over flow-control x size grids; the ledger is updated synchronously inside the real sender's Send call, so every reachable 'just sent' state is checked against max_outstanding_messages / bytes; after each capacity-freeing action the stream must have sent any fitting deliverable message by quiescence. One stall shape (byte head-of-line) is a recorded known finding; the nack slot leak found this way was repaired.",
+   note="Trusted base: the ledger's settle rules (DESIGN.md 4A, streaming capacity) chosen so that a correct server can never be accused; testing/synctest quiescence."),
  "C13": dict(technique="reference-model monitor: expected backlog after seek (set equality via probe pulls and drain)",
    text="Exploration: histories of publish / pull / partial ack / snapshot / more traffic / seek to past, present, future times and to own snapshots, repeated seeks, then probes and a drain; what is outstanding afterwards must equal the model's backlog (missing => seek-revived-missing, extra => delivered-after-seek-past).",
    note=_HIST_NOTE + " 'Retained' is read from the deliveries table (pruned rows are documented as not resurrected). Sibling-subscription snapshots, dead-letter subscriptions under seek and revival of completed-and-expired messages are unspecified."),
